@@ -11,7 +11,38 @@ TYPES = [["BufWriter<std::process::ChildStdin>", "XStdin"],
          ["std::io::Error", "XIoError"], ["SmtParserError", "XParserError"]]
 
 
-def build(ub, algebra_text):
+BMC = "patronus/src/mc/bmc.rs"
+
+
+def refine(obls):
+    """Assume-guarantee between the reader and its consumers.  The property allows a reply to surface as an error OR as an
+    Unknown verdict.  The tree as it stands never lets the reader return Ok(Unknown) (strict contract, first run), and bmc relies
+    on that: it only tests `== Sat`.  If the strict contract fails, the reader is re-verified against the contract the property
+    states (Ok(Unknown) allowed) and the verdict gates of bmc are checked against a reader that may answer Unknown."""
+    for o in obls:
+        if o.name == "read_sat_response" and o.status == "failed":
+            return "unknown_possible"
+    return None
+
+
+def verdict_gates(ub):
+    """`if X == CheckSatResponse::Sat {` inside fn bmc: (line, condition text, variable)"""
+    import re
+    from vx.lexer import lex, code_toks, match_close
+    item = ub.src(BMC).find_fn("bmc")
+    body = item.body
+    T = code_toks(lex(body))
+    gates = []
+    for i, t in enumerate(T):
+        if t.kind == "ident" and t.text == "if" and i + 6 < len(T) and T[i + 1].kind == "ident" and T[i + 2].text == "==" \
+                and T[i + 3].text == "CheckSatResponse" and T[i + 4].text == "::" and T[i + 5].text == "Sat" and T[i + 6].text == "{":
+            cond = body[T[i + 1].start:T[i + 5].end]
+            line = item.line + body[:t.start].count("\n")
+            gates.append((line, cond, T[i + 1].text))
+    return gates
+
+
+def build(ub, algebra_text, variant=None):
     ub.out("use vstd::prelude::*;\nverus! {\n")
     base = os.path.dirname(os.path.dirname(os.path.abspath(__file__)))
     pre, post = open(os.path.join(base, "prelude/solver.rs")).read().split("//@@EXTRACTED-ITEMS@@")
@@ -21,12 +52,27 @@ def build(ub, algebra_text):
             "supports_get_unsat_assumptions", "symbols", "last_query_unsat")]
     ub.emit_item(SOLVER, "struct", "SmtLibSolverCtx", "", replace=TYPES + pubf)
     ub.emit_item(SOLVER, "enum", "Error", "", replace=TYPES)
-    ub.emit_item(SOLVER, "enum", "CheckSatResponse", "")
+    ub.emit_item(SOLVER, "enum", "CheckSatResponse", "#[derive(PartialEq, Eq, Clone, Copy, Structural)]" if variant else "")
     ub.out("pub type Result<T> = std::result::Result<T, Error>;\n")
     ub.out("// @@FILE prelude/solver.rs (part 2)\n" + post)
     ub.emit_assumed("carved_response_tail")
     cfg = {"receivers": {}, "no_canary": True,
            "carve_if": [{"token": "starts_with", "call": "carved_response_tail(self)", "stub": "carved_response_tail"}]}
     ub.emit_fn(SOLVER, "read_response", "verify", impl="impl SmtLibSolverCtx", cfg=cfg)
-    ub.emit_fn(SOLVER, "read_sat_response", "verify", impl="impl SmtLibSolverCtx", cfg={"receivers": {}, "no_canary": True})
+    if variant is None:
+        ub.emit_fn(SOLVER, "read_sat_response", "verify", impl="impl SmtLibSolverCtx", cfg={"receivers": {}, "no_canary": True})
+    else:
+        ub.emit_fn(SOLVER, "read_sat_response", "verify", impl="impl SmtLibSolverCtx", spec_key="read_sat_response#unknown_allowed",
+                   cfg={"receivers": {}, "no_canary": True, "obligation_name": "read_sat_response"})
+        gates = verdict_gates(ub)
+        if not gates:
+            from vx.extract import AnchorError
+            raise AnchorError("the reader may answer Ok(Unknown) and no `if X == CheckSatResponse::Sat` verdict gate was found in bmc: "
+                              "its consumers cannot be analysed")
+        for k, (line, cond, var) in enumerate(gates, 1):
+            import re
+            body = "{ if " + re.sub(r"\b%s\b" % re.escape(var), "res", cond) + " { return false; } true }"
+            ub.emit_synth("bmc_verdict_gate", f"bmc_verdict_gate_{k}", f"fn bmc_verdict_gate_{k}(res: CheckSatResponse) -> bool", body, BMC, line,
+                          cfg={"receivers": {}, "no_canary": True},
+                          note="the condition is verbatim (variable spelled `res`); the Fail branch returns false, falling through (towards Success) returns true")
     ub.out("} // verus!\nfn main() {}\n")
